@@ -479,7 +479,9 @@ var solverCmds = []struct {
 	}},
 }
 
-var solverSem = make(chan struct{}, 16)
+// at most 5 obligations are solved at a time (3 solver processes each on 16 cores): keeps the
+// per-query wall time close to the unloaded time, so that timeouts mean something
+var solverSem = make(chan struct{}, 5)
 
 // Solve races the installed solvers on one SMT-LIB script (which must end with (check-sat) (get-model)).
 func Solve(script string, dir string, name string, timeoutS int) SolveResult {
